@@ -176,6 +176,10 @@ def run_tlc(module, cfg, *, workers=8, env=None, timeout=900, simulate=None,
                 if m:
                     r.generated = int(m.group(1))
                     r.distinct = max(r.distinct, 1)
+                m = re.match(r"Progress: (\d+) states checked, (\d+) traces generated", line)
+                if m:
+                    r.generated = max(r.generated, int(m.group(1)))
+                    r.distinct = max(r.distinct, int(m.group(2)))
                 if "No error has been found" in line:
                     r.ok = True
                 m = re.match(r"Error: Invariant (\S+) is violated", line)
